@@ -276,9 +276,14 @@ func (namespaceManager *NamespaceManager) GetPrefixMappingForExpansion(uriExpans
 	return "", errors.New("Could not get prefix for unknown URI expansion: " + uriExpansion)
 }
 
+// GetPrefixToExpansionMap returns a snapshot copy of the prefix mappings. The live map must not
+// leave the lock: callers iterate the result while AssertPrefixMappingForExpansion may write.
 func (namespaceManager *NamespaceManager) GetPrefixToExpansionMap() (result map[string]string) {
 	namespaceManager.lock.Lock()
-	result = namespaceManager.prefixToExpansionMapping
+	result = make(map[string]string, len(namespaceManager.prefixToExpansionMapping))
+	for prefix, expansion := range namespaceManager.prefixToExpansionMapping {
+		result[prefix] = expansion
+	}
 	namespaceManager.lock.Unlock()
 	return
 }
